@@ -33,14 +33,14 @@ func init() {
 		{Pkg: "github.com/notaryproject/notation-core-go/revocation", Type: "Revocation", Nilable: true},
 		{Pkg: fw, Func: "VerifyPlugin.GetMetadata", Oracle: true},
 		{Pkg: fw, Type: "Plugin", Opaque: true},
-		{Pkg: ".../plugin", Type: "Manager", Opaque: true},
+		{Pkg: ".../plugin", Type: "Manager", Opaque: true, Nilable: true},
 		{Pkg: ".../plugin", Func: "Manager.Get", Oracle: true, AnyReceiver: true},
 		// the plugin request and the nil answer (the plugin itself is the oracle VerifySignature)
 		{Pkg: fw, Func: "VerifyPlugin.VerifySignature", Oracle: true, AnyReceiver: true},
 		{Pkg: v, Func: "executePlugin"},
 		{Pkg: v, Func: "verifyIntegrity", Oracle: true},
 		{Pkg: v, Func: "loadX509TrustStores", Oracle: true},
-		{Pkg: v, Func: "verifyAuthenticity", Oracle: true},
+		{Pkg: v, Func: "verifyAuthenticity", Oracle: true, FreshResults: true},
 		{Pkg: v, Func: "verifyX509TrustedIdentities", Oracle: true},
 		{Pkg: v, Func: "verifyExpiry", Oracle: true},
 		{Pkg: v, Func: "verifyAuthenticTimestamp", Oracle: true},
@@ -53,7 +53,7 @@ func init() {
 		// (verifier/verifier.go:680-687); processSignature sets authenticityResult.Error (:513) after the pointer was
 		// appended to outcome.VerificationResults (:501): aliasing, GoLite has no heap. The native validations above
 		// (verifyIntegrity .. verifyAuthenticTimestamp) are the oracles processSignature would have; C03 C04 C06 own them.
-		{Pkg: v, Func: "processPluginResponse", NonNil: true},
+		{Pkg: v, Func: "processPluginResponse", Oracle: true, OutParams: []string{"outcome"}},
 		{Pkg: v, Func: "(*verifier).processSignature", NonNil: true},
 	})
 }
